@@ -2,7 +2,8 @@ import IofloModel.Drv.SkedProto
 /-!
 driver for the scheduler model (engine `sked`)
 
-request   `run <x|f|s|r> <fuel> <config>`            → `<outcome> | <event>;<event>;… | aborted id… | ticks n`
+request   `runs <x|f|r> <fuel> <config> <nreruns> { <n> id… }` → the replies of the first and the later `run()`s joined by ` || `
+          `run <x|f|s|r> <fuel> <config>`            → `<outcome> | <event>;<event>;… | aborted id… | ticks n`
           `drift <fuel> <config(f)> @ <config(x)>` → `true` / `false`   (region predicate of D2)
 
 config    `<P> <stamp> <nhouses> { <n> id… <n> id… <n> id… }  <ntaskers> { tasker }`
@@ -49,12 +50,18 @@ def config : P (Config τ) := do
   pure { period := p, stamp := s, houses := hs, taskers := ts }
 end
 
-def showRun {τ : Type} [TimeLike τ] (sh : τ → String) (c : Config τ) (fuel : Nat) : String :=
-  if !c.wellFormed then "bad-op" else
-  let r := c.run fuel
+def showResult {τ : Type} (sh : τ → String) (r : Outcome × St τ (Ioflo.Sked.World τ)) : String :=
   outcomeCode r.1 ++ " | " ++ ";".intercalate (r.2.events.map (showEvent sh))
     ++ " | aborted " ++ " ".intercalate (r.2.aborted.map (fun e => toString e.id))
     ++ " | ticks " ++ toString r.2.tick
+
+def showRun {τ : Type} [TimeLike τ] (sh : τ → String) (c : Config τ) (fuel : Nat) : String :=
+  if !c.wellFormed then "bad-op" else showResult sh (c.run fuel)
+
+/-- several `run()`s on one scheduler; before each later run the listed taskers are re-made -/
+def showRuns {τ : Type} [TimeLike τ] (sh : τ → String) (c : Config τ) (fuel : Nat) (again : List (List Nat)) : String :=
+  if !c.wellFormed || !again.all (fun ids => ids.all (· < c.taskers.length)) then "bad-op" else
+  " || ".intercalate ((c.runAll fuel again).map (showResult sh))
 
 def step (_ : Unit) (line : String) : Unit × String :=
   let ws := words line
@@ -76,6 +83,18 @@ def step (_ : Unit) (line : String) : Unit × String :=
       -- numbers given as exact rationals, every one rounded to binary64 by the model itself (`Config.toF64`)
       match (do let f ← nat; let c ← config ratOfString; pure (f, c) : P _).run rest with
       | some ((f, c), []) => some (showRun f64ToString c.toF64 f)
+      | _ => none
+    | "runs" :: "x" :: rest =>
+      match (do let f ← nat; let c ← config ratOfString; let a ← counted (counted nat); pure (f, c, a) : P _).run rest with
+      | some ((f, c, a), []) => some (showRuns ratToString c f a)
+      | _ => none
+    | "runs" :: "f" :: rest =>
+      match (do let f ← nat; let c ← config floatOfString; let a ← counted (counted nat); pure (f, c, a) : P _).run rest with
+      | some ((f, c, a), []) => some (showRuns floatToString c f a)
+      | _ => none
+    | "runs" :: "r" :: rest =>
+      match (do let f ← nat; let c ← config ratOfString; let a ← counted (counted nat); pure (f, c, a) : P _).run rest with
+      | some ((f, c, a), []) => some (showRuns f64ToString c.toF64 f a)
       | _ => none
     | "drift" :: rest =>
       match (do let f ← nat; let cf ← config floatOfString
